@@ -24,6 +24,7 @@ def run(ctx):
     gram.scan_alignment(ctx, g, P)
     finder.rule_macro_filter(ctx, facts, "C10-R1")
     finder.rule_filter_before_entry(ctx, facts, "C10-R1")
+    finder.rule_parse_complete(ctx, facts, "C10-R1")
     rule_anchor_provenance(ctx, facts, g, "C10-R2")
     ctx.assume("pest semantics: implicit WHITESPACE/COMMENT skipping between the elements of non-atomic rules, none inside atomic rules")
     return {
